@@ -100,8 +100,12 @@ def templates():
     return T
 
 
+SEPS = ["\n"]  # line separators used between the lines of a program; run() adds the others the library treats as line ends
+
+
 def to_cmds(n, place, hist, fill="0xcc"):
     cmds = ["new 0 ext %d %s %s" % (n, place, fill)]
+    sep = SEPS[(n + len(hist) + sum(len(op[-1]) for op in hist if op[0] in ("asm", "cnt"))) % len(SEPS)]
     for op in hist:
         if op[0] == "opt":
             cmds.append("opt 0 %s %d" % (op[1], op[2]))
@@ -112,9 +116,9 @@ def to_cmds(n, place, hist, fill="0xcc"):
         elif op[0] == "setoff":
             cmds.append("setoff 0 %d" % op[1])
         elif op[0] == "asm":
-            cmds.append("asm 0 %s" % common.hx("\n".join(line_text(L, i) for i, L in enumerate(op[1]))))
+            cmds.append("asm 0 %s" % common.hx(sep.join(line_text(L, i) for i, L in enumerate(op[1]))))
         elif op[0] == "cnt":
-            cmds.append("cnt 0 %d %s" % (op[1], common.hx("\n".join(line_text(L, i) for i, L in enumerate(op[2])))))
+            cmds.append("cnt 0 %d %s" % (op[1], common.hx(sep.join(line_text(L, i) for i, L in enumerate(op[2])))))
     cmds.append("guard 0")
     return cmds
 
@@ -161,6 +165,15 @@ def run(tier):
             v.violation({"key": "payload line %r" % LINES[L], "fam": "precondition", "text": LINES[L]}, r["crash"]["sig"] if "crash" in r else "precondition:valid-line-rejected", None)
             return v.finish()
         lenmap[L] = len(r["bytes"]) // 2
+    # which byte sequences end a line for this library? (LF and CRLF are documented; if a bare CR, LF CR or a run of them separates
+    # two instructions as well, programs are also written with those - the room model is about instructions, however they are separated)
+    del SEPS[1:]
+    cands = ["\r\n", "\r", "\n\r", "\r\r\n", "\n\n"]
+    pr = common.run_lines(asan, [("211", "clc" + c + "xor eax, eax", 0) for c in cands], tag="c07s")
+    want2 = None
+    for c, r in zip(cands, pr):
+        if "crash" not in r and r["rc"] == 0 and len(r["bytes"]) == 2 * (lenmap[1] + lenmap[2]):
+            SEPS.append(c)
     T = templates()
     jobs = []  # (binary tag, n, place, hist, origin)
     for n in range(0, 65):
@@ -188,7 +201,7 @@ def run(tier):
         h = gen_history(rnd, n, maxops=6 if k % 5 else 14)
         fl, place = rnd.choice([("asan", "H"), ("plain", "R"), ("plain", "L")])
         jobs.append((fl, n, place, h, "random"))
-    stats = {"cases": len(jobs), "calls": 0, "calls_failed_as_required": 0, "calls_succeeded": 0, "template_cases": 65 * 40 * 3, "random_cases": nrand, "rungrid_cases": sum(1 for j in jobs if j[4] == "rungrid"),
+    stats = {"cases": len(jobs), "line_separators": [x.encode().hex() for x in SEPS], "calls": 0, "calls_failed_as_required": 0, "calls_succeeded": 0, "template_cases": 65 * 40 * 3, "random_cases": nrand, "rungrid_cases": sum(1 for j in jobs if j[4] == "rungrid"),
              "guard_placements": {"H(asan redzones)": 0, "R(guard page after)": 0, "L(guard page before)": 0}}
     for fl, binary in (("asan", asan), ("plain", plain)):
         sel = [j for j in jobs if j[0] == fl]
